@@ -31,5 +31,13 @@ CacheStable      == [][st.cached => st'.cached]_vars
 NeverBadSignature == \A k \in 1..Len(hist) : (hist[k].op.name = "ThresholdSignature" /\ hist[k].ret = "sig") =>
                         \A j \in DOMAIN st.shares : st.shares[j] = "v"
 
+\* every step of this implementation-shaped specification is a step of the abstract share pool (ThresholdSigAbs.tla), whose
+\* invariant Apalache proves inductive for every group size up to 12 and every threshold (ThresholdSigInd.tla)
+Abs == INSTANCE ThresholdSigAbs
+Held(s) == DOMAIN s.shares
+Bad(s)  == {j \in DOMAIN s.shares : s.shares[j] # "v"}
+RefinesAbs == [][Abs!R(N, T, Held(st), Bad(st), st.cached, Held(st'), Bad(st'), st'.cached)]_vars
+AbsInv     == Abs!Inv(N, T, Held(st), Bad(st), st.cached)
+
 Emit == Len(hist) = MaxLen => PrintT(<<"CASE", ToJson([hist |-> hist])>>)
 =============================================================================
